@@ -12,6 +12,7 @@ Three kinds of cases
         character classes of the model compared with CPython over every code point
 The model side is coq/Run/RunC03.v (extracted)."""
 import codecs
+import copy
 import gzip
 import io
 import json
@@ -919,7 +920,57 @@ def gen_cli(rng, tier, how):
     return c
 
 
+QUOTE_IDS = ['"Bacteroides" sp.', '"2 isolate', '"', '""x', '"a b"', '"o1', 'x"y"']
+QUOTE_TEXTS = ['"k__A"; p__B', '"unbalanced; p__B', '"quoted"', '"']
+
+
+def quote_cases():
+    """fixed cases (in every tier, independent of the seed): observation ids, sample ids and exported
+    metadata texts that START with a double quote, balanced and unbalanced, alone and next to ordinary
+    rows, through every import and the convert command.  A reader that treats the fields as CSV
+    (quote removal, a quoted field swallowing the rest of the line) changes ids or values."""
+    def spec(oids, sids, mat, omd=None):
+        return {'oids': oids, 'sids': sids, 'mat': mat, 'omd': omd, 'smd': None, 'type': None, 'layout': ['dense']}
+    plain = {'hk': None, 'hv': None, 'fmt': 'sc_separated'}
+    tables_ = [
+        spec(['"Bacteroides" sp.', 'o2'], ['s1', 's2'], [[1.0, 2.5], [0.0, 3.0]]),
+        spec(['"2 isolate'], ['s1', 's2', 's3'], [[1e-07, 0.0, -2.5]]),
+        spec(['o1', '"', 'o3'], ['s1'], [[1.0], [2.0], [0.0]]),
+        spec(['""x', '"a b"', 'x"y"', '"o1'], ['"s1"', '"s2'], [[1.0, 0.0], [0.0, 2.0], [3.0, 4.0], [0.0, 0.0]]),
+    ]
+    out = []
+    for k, sp in enumerate(tables_):
+        for mode in ('lines', 'handle', 'path', 'gz', 'convert', 'cli'):
+            c = {'kind': 'rt', 'spec': copy.deepcopy(sp), 'opts': dict(plain), 'process': 'naive', 'mode': mode, 'fixed': 'quote-id'}
+            out.append(c)
+    # exported metadata whose text starts with a quote: a text category (naive) and a taxonomy (sc_separated)
+    n_oids = ['o1', '"Bacteroides" sp.', 'o3', 'o4']
+    notes = [{'note': x} for x in QUOTE_TEXTS]
+    taxa = [{'taxonomy': ['"k__A"', 'p__B']}, {'taxonomy': ['"k__A', 'p__B']}, {'taxonomy': ['k__A', '"p__B"']}, {'taxonomy': ['"']}]
+    mat = [[1.0, 0.0], [0.0, 2.0], [3.0, 4.0], [0.0, 0.0]]
+    for mode in ('lines', 'handle', 'path', 'gz', 'convert', 'cli'):
+        out.append({'kind': 'rt', 'spec': spec(list(n_oids), ['s1', 's2'], [list(r) for r in mat], copy.deepcopy(notes)),
+                    'opts': {'hk': 'note', 'hv': 'note', 'fmt': 'naive'}, 'process': 'naive', 'mode': mode, 'fixed': 'quote-md'})
+        out.append({'kind': 'rt', 'spec': spec(list(n_oids), ['s1', 's2'], [list(r) for r in mat], copy.deepcopy(taxa)),
+                    'opts': {'hk': 'taxonomy', 'hv': 'taxonomy', 'fmt': 'sc_separated'}, 'process': 'sc_separated', 'mode': mode,
+                    'fixed': 'quote-md'})
+    for c in out:
+        if c['mode'] == 'handle':
+            c['hkind'], c['api'] = 'namedtemp', 'from_tsv'
+        if c['mode'] == 'cli':
+            c['cli'] = {'how': 'inproc', 'src': 'json', 'back': 'json', 'table_type': None, 'smap': False, 'omap': False,
+                        'collapsed': None}
+    # and the reader alone on lines whose fields start with a quote
+    out.append({'kind': 'text', 'process': 'naive', 'fixed': 'quote-text',
+                'lines': ['#OTU ID\ts1\ts2', '"Bacteroides" sp.\t1.0\t2.0', '"2 isolate\t3.0\t0.0', 'o3\t"4.0"\t5.0']})
+    out.append({'kind': 'text', 'process': 'sc_separated', 'fixed': 'quote-text',
+                'lines': ['#OTU ID\ts1\ttaxonomy', 'o1\t1.0\t"k__A"; p__B', 'o2\t3.0\t"k__A; p__B', '"o3"\t0.0\tRoot']})
+    return out
+
+
 def gen(rng, tier):
+    for c in quote_cases():
+        yield c
     yield {'kind': 'contract', 'what': 'num', 'seed': rng.randrange(2 ** 31), 'n': 20000}
     yield {'kind': 'contract', 'what': 'ws'}
     n = 300 if tier == 'quick' else 3000
@@ -967,6 +1018,8 @@ def classify(c):
     if all(v == 0 for row in spec['mat'] for v in row):
         tags.append('shape:all-zero')
     tags.append('md:' + ('none' if c['opts']['hk'] is None else c['opts']['fmt']))
+    if c.get('fixed'):
+        tags.append('fixed:' + c['fixed'])
     if c['mode'] == 'handle':
         tags.append('handle:%s/%s' % (c.get('hkind', 'stringio'), c.get('api', 'from_tsv')))
     if c.get('ptype'):
